@@ -106,6 +106,9 @@ func errSitesOf(p *load.Program, root *ssa.Function) []ErrSite {
 		if strings.HasPrefix(name, "builtin.") || name == load.RuntimeMod+"/grouperror.Collection" {
 			continue // Collection only decomposes an error that is tracked on its own
 		}
+		if strings.HasPrefix(name, "strings.(Builder).Write") || strings.HasPrefix(name, "bytes.(Buffer).Write") {
+			continue // documented: "the returned error is always nil" — in-memory writers cannot fail
+		}
 		counts[name]++
 		site := ErrSite{Fn: rootKey, Callee: name, Pos: p.Pos(c.ins.Pos()),
 			Key: fmt.Sprintf("%s -> %s #%d", rootKey, shortName(p.ModPath, name), counts[name])}
